@@ -940,6 +940,37 @@ func faultsSetMatchLock(p *packages.Package) []string {
 	return shape
 }
 
+// MessageStreamer.Go, refresh goroutine: what the loop that applies the database's answer (the one
+// whose body deletes from `pending`, inside the refresh goroutine: it also reads `deliveryMap`) ranges over — the list of ids taken before the query, or the live map
+func streamerRefreshApplies(p *packages.Package) []string {
+	fd := funcDecl(p, "MessageStreamer", "Go")
+	var res []string
+	if fd == nil {
+		return res
+	}
+	ast.Inspect(fd.Body, func(n ast.Node) bool {
+		rs, ok := n.(*ast.RangeStmt)
+		if !ok {
+			return true
+		}
+		deletes, reads := false, false
+		ast.Inspect(rs.Body, func(m ast.Node) bool {
+			if c, ok := m.(*ast.CallExpr); ok && exprName(c.Fun) == "delete" && len(c.Args) == 2 && exprName(c.Args[0]) == "pending" {
+				deletes = true
+			}
+			if ix, ok := m.(*ast.IndexExpr); ok && exprName(ix.X) == "deliveryMap" {
+				reads = true
+			}
+			return true
+		})
+		if deletes && reads {
+			res = append(res, exprName(rs.X))
+		}
+		return true
+	})
+	return res
+}
+
 func main() {
 	repo := "/repo"
 	if len(os.Args) > 1 {
@@ -991,6 +1022,7 @@ func main() {
 	fmt.Fprintf(&out, "/-- the transaction closures of GetSubscriptionMessages.execute that select candidates: do they record the attempt too -/\ndef pullTxShape : List String := %s\n", q(pullTxShape(act)))
 	fmt.Fprintf(&out, "/-- every `case <-pubNotify` of MessageStreamer.Go: does it take a new awaiter first -/\ndef streamerRenewals : List String := %s\n", q(streamerRenewals(act)))
 	fmt.Fprintf(&out, "/-- every Send / SendBatch of the sender goroutine of MessageStreamer.Go: are the fetched deliveries entered into `pending` before it -/\ndef streamerBooksBeforeSend : List String := %s\n", q(streamerBooksBeforeSend(act)))
+	fmt.Fprintf(&out, "/-- MessageStreamer.Go, refresh goroutine: what the loop applying the database's answer ranges over -/\ndef streamerRefreshApplies : List String := %s\n", q(streamerRefreshApplies(act)))
 	fmt.Fprintf(&out, "/-- services.monitorPusher: the context the push service watches to learn that a pusher has ended -/\ndef pusherMonitorContext : String := %q\n", pusherMonitorContext(svc))
 	{
 		var fl []string
